@@ -11,7 +11,7 @@ import (
 
 // buildWalkSpec: a compiled spec with nn symbolic nodes ("n0".."n<nn-1>") plus "error". Each node is
 // drawn from templates: terminal; message branching with one or two vocabulary branches; an action node
-// (bindings branching) with a deterministic stub and one branch; a bindings-branching node without
+// (bindings branching) with a deterministic stub and one branch; message branching with a catch-all branch; a bindings-branching node without
 // action; message branching whose guard fails (branch evaluation errors).  Targets range over the nodes
 // and one missing name.  The spec's error node is empty, or consumes messages itself (selectively, or
 // with a failing guard).
@@ -40,7 +40,7 @@ func buildWalkSpec(nn int, log *stubLog, errors bool) *Spec {
 		} else if errors {
 			tmpl = []int{0, 2, 6}[verif.Choose(name+".template", 3)]
 		} else {
-			tmpl = verif.Choose(name+".template", 6)
+			tmpl = []int{0, 1, 2, 3, 4, 5, 7}[verif.Choose(name+".template", 7)]
 		}
 		target := ""
 		if tmpl > 0 {
@@ -62,6 +62,8 @@ func buildWalkSpec(nn int, log *stubLog, errors bool) *Spec {
 			n.Branches = &Branches{Type: "bindings", Branches: []*Branch{{Target: target}}}
 		case 5: // bindings branching without action: moves while ?x is bound
 			n.Branches = &Branches{Type: "bindings", Branches: []*Branch{{Pattern: map[string]interface{}{"?x": "?v"}, Target: target}}}
+		case 7: // message branching with a catch-all branch (no pattern, no guard): every message, {} included, moves it
+			n.Branches = &Branches{Type: "message", Branches: []*Branch{{Target: target}}}
 		case 6: // message branching whose guard fails: evaluating the branch is an error
 			g := &stubSpec{name: name + ".guard", kind: aFail}
 			n.Branches = &Branches{Type: "message", Branches: []*Branch{{Pattern: map[string]interface{}{"a": "?x"}, Guard: g.action(log), Target: target}}}
@@ -146,6 +148,17 @@ func c05Walk(errors bool) {
 				verif.Assert("consumes-in-order", verif.SameObject(sd.Consumed, msgs[c]))
 			}
 			c++
+		}
+	}
+	// a consumed message is offered to the branches: at a node whose first branch has neither pattern nor
+	// guard, whatever was consumed (the empty message too) takes that branch
+	for _, sd := range w.Strides {
+		if sd.Consumed != nil && sd.From != nil {
+			if n := s.Nodes[sd.From.NodeName]; n != nil && n.Branches != nil && len(n.Branches.Branches) > 0 {
+				if b0 := n.Branches.Branches[0]; b0.Pattern == nil && b0.Guard == nil {
+					verif.Assert("consumed-message-takes-the-catch-all-branch", sd.To != nil)
+				}
+			}
 		}
 	}
 	// (e) each step starts from the state the previous one produced
